@@ -2,6 +2,8 @@
 from .. import core, sched
 from ..gen import KEY_POOL, rng_for
 
+EXTRA_PROP_MODULES = [("KB.Props.OrderC04", "KB.OrderC04")]
+
 ENGINES = ["memkv", "badger", "tikv"]
 
 
